@@ -948,6 +948,49 @@ func Eq(a, b *Term) *Term {
 			}
 		}
 	}
+	if a.W > 1 && (a.Op == OpAdd || a.Op == OpSub || b.Op == OpAdd || b.Op == OpSub) {
+		// linear terms: decide by the difference, or at least cancel common summands
+		l := &lin{coef: map[*Term]uint64{}}
+		linearize(a, 1, l)
+		linearize(b, ^uint64(0), l)
+		m := mask(a.W)
+		var ts []*Term
+		var cs []uint64
+		for t, c := range l.coef {
+			if c&m != 0 {
+				ts = append(ts, t)
+				cs = append(cs, c&m)
+			}
+		}
+		k := l.c & m
+		switch {
+		case len(ts) == 0:
+			return Bool(k == 0)
+		case len(ts) == 1 && cs[0] == 1: // t + k == 0
+			if ts[0].Op != OpAdd && ts[0].Op != OpSub {
+				return Eq(ts[0], BV(a.W, (-k)&m))
+			}
+		case len(ts) == 1 && cs[0] == m: // -t + k == 0
+			if ts[0].Op != OpAdd && ts[0].Op != OpSub {
+				return Eq(ts[0], BV(a.W, k))
+			}
+		case len(ts) == 2 && k == 0 && (cs[0] == 1 && cs[1] == m || cs[0] == m && cs[1] == 1):
+			x, y := ts[0], ts[1]
+			if x.Op != OpAdd && x.Op != OpSub && y.Op != OpAdd && y.Op != OpSub {
+				if x.ID > y.ID {
+					x, y = y, x
+				}
+				return mk(&Term{Op: OpEq, Args: []*Term{x, y}})
+			}
+		}
+		// canonical form: difference == 0
+		d := rebuildLin(a.W, l)
+		z := BV(a.W, 0)
+		if d.ID > z.ID {
+			return mk(&Term{Op: OpEq, Args: []*Term{z, d}})
+		}
+		return mk(&Term{Op: OpEq, Args: []*Term{d, z}})
+	}
 	if a.ID > b.ID {
 		a, b = b, a
 	}
